@@ -417,7 +417,7 @@ Proof. intros Hv. destruct typ; try discriminate; sep_tac. Qed.
 
 Lemma assign_items_ok a tail : alx a -> items_ok (assign_items a) (10 :: tail).
 Proof.
-  intros (Hr & Hv & Hc & He). unfold assign_items.
+  intros (Hr & Hv & Hc & He & _). unfold assign_items.
   apply items_ok_app; [apply ref_items_ok; [apply Hr|]; destruct (aappend a); cbn; vm_compute; reflexivity|].
   apply items_ok_app; [destruct (aappend a); cbn; repeat split; reflexivity|].
   apply items_ok_app; [|apply comment_items_ok; exact Hc].
@@ -433,7 +433,7 @@ Qed.
 
 Lemma assign_items_ends a : alx a -> ends_with_tok (assign_items a) /\ assign_items a <> [].
 Proof.
-  intros (Hr & Hv & Hc & He). unfold assign_items.
+  intros (Hr & Hv & Hc & He & _). unfold assign_items.
   destruct (ref_items_ends (akey a) (proj1 Hr)) as [A B].
   split; [|intros H; apply app_eq_nil in H; destruct H as [H _]; contradiction].
   destruct (value_items_ends (avalue a) Hv) as [V1 V2].
